@@ -745,6 +745,9 @@ class Model:
             Self: The instance of the model with the added parameters.
 
         """
+        for k in parameters:
+            if k == "time" or k in self._ids:
+                self._insert_id(name=k, ctx="parameter")  # raises
         for k, v in parameters.items():
             if isinstance(v, Parameter):
                 self.add_parameter(k, v.value, unit=v.unit, source=v.source)
@@ -787,6 +790,10 @@ class Model:
             Self: The instance of the model with the specified parameters removed.
 
         """
+        names = list(names)
+        if missing := [i for i in names if i not in self._parameters]:
+            msg = f"{missing!r} not found in parameters"
+            raise KeyError(msg)
         for name in names:
             self.remove_parameter(name)
         return self
@@ -850,6 +857,9 @@ class Model:
             Self: The instance of the model with updated parameters.
 
         """
+        if missing := [i for i in parameters if i not in self._parameters]:
+            msg = f"{missing!r} not found in parameters"
+            raise KeyError(msg)
         for k, v in parameters.items():
             if isinstance(v, Parameter):
                 self.update_parameter(k, value=v.value, unit=v.unit, source=v.source)
@@ -897,6 +907,9 @@ class Model:
             Self: The instance of the model with scaled parameters.
 
         """
+        if missing := [i for i in parameters if i not in self._parameters]:
+            msg = f"{missing!r} not found in parameters"
+            raise KeyError(msg)
         for k, v in parameters.items():
             self.scale_parameter(k, v)
         return self
@@ -1093,6 +1106,9 @@ class Model:
             Self: The instance of the model with the added variables.
 
         """
+        for name in variables:
+            if name == "time" or name in self._ids:
+                self._insert_id(name=name, ctx="variable")  # raises
         for name, v in variables.items():
             if isinstance(v, Variable):
                 self.add_variable(
@@ -1161,6 +1177,10 @@ class Model:
             Self: The instance of the model with the specified variables removed.
 
         """
+        variables = list(variables)
+        if missing := [i for i in variables if i not in self._variables]:
+            msg = f"{missing!r} not found in variables"
+            raise KeyError(msg)
         for variable in variables:
             self.remove_variable(
                 name=variable, remove_stoichiometries=remove_stoichiometries
@@ -1219,6 +1239,9 @@ class Model:
             Self: The instance of the model with updated variables.
 
         """
+        if missing := [i for i in variables if i not in self._variables]:
+            msg = f"{missing!r} not found in variables"
+            raise KeyError(msg)
         for k, v in variables.items():
             if isinstance(v, Variable):
                 self.update_variable(
